@@ -88,18 +88,97 @@ theorem sum_votes_le_total (s : StakeSet) (ep : Nat) (keys : List Bytes) (hnd : 
 
 end StakeSet
 
-/-- `confirm` with the header already computed -/
+namespace ConfirmL
+
+/-- the saturating fold is the exact sum capped at `u128::MAX` -/
+theorem satFold_eq_min : ∀ (l : List Nat) (a : Nat), a ≤ U128_MAX →
+    l.foldl satAdd128 a = min (a + l.sum) U128_MAX := by
+  intro l
+  induction l with
+  | nil => intro a ha; simp only [List.foldl_nil, List.sum_nil]; omega
+  | cons x t ih =>
+    intro a ha
+    simp only [List.foldl_cons, List.sum_cons]
+    rw [ih (satAdd128 a x) (by unfold satAdd128; omega)]
+    unfold satAdd128
+    omega
+
+theorem satSum_eq_min (l : List Nat) : satSum l = min l.sum U128_MAX := by
+  unfold satSum
+  rw [satFold_eq_min l 0 (Nat.zero_le _)]
+  simp
+
+/-- capping every summand first does not change the capped sum -/
+theorem min_sum_map_satU128 {α} (l : List α) (f : α → Nat) :
+    min (l.map fun x => satU128 (f x)).sum U128_MAX = min (l.map f).sum U128_MAX := by
+  induction l with
+  | nil => simp
+  | cons a t ih =>
+    simp only [List.map_cons, List.sum_cons]
+    unfold satU128 at ih ⊢
+    omega
+
+/-- the saturating tally of the per-key saturating votes is the exact tally capped at `u128::MAX` -/
+theorem satSum_votes {α} (l : List α) (f : α → Nat) :
+    satSum (l.map fun x => satU128 (f x)) = min (l.map f).sum U128_MAX := by
+  rw [satSum_eq_min, min_sum_map_satU128]
+
+/-- below a total that fits, the capped tally decides exactly like the exact tally -/
+theorem capped_decision (present total : Nat) (ht : total < U128_MAX) :
+    (min present U128_MAX * 3 > satU128 total * 2) ↔ (present * 3 > total * 2) := by
+  unfold satU128
+  omega
+
+end ConfirmL
+
+/-- `confirm` with the header already computed, in its literal (saturating) form -/
+theorem confirm_eq_sat (env : Env) (ss : Sealed) (hdr : Header) (proof : List (Bytes × Bytes))
+    (hh : headerOf env ss = .ok hdr) :
+    confirm env ss proof =
+      if !(proof.all fun e => e.2.length = 64 && env.vm.sigOk e.1 (env.hdrHash hdr) e.2) then .ok false
+      else if satU128 (ss.st.stakes.totalVotes ss.st.epoch) = U128_MAX then .ok false
+           else .ok (decide (satSum (proof.map fun e => satU128 (ss.st.stakes.votes ss.st.epoch e.1)) * 3
+                              > satU128 (ss.st.stakes.totalVotes ss.st.epoch) * 2)) := by
+  unfold confirm
+  rw [hh]
+  rfl
+
+/-- `confirm` with the header already computed: a total that reaches `u128::MAX` confirms nothing;
+    below that, the saturating tallies decide exactly like the exact sums -/
 theorem confirm_eq (env : Env) (ss : Sealed) (hdr : Header) (proof : List (Bytes × Bytes))
     (hh : headerOf env ss = .ok hdr) :
     confirm env ss proof =
       if !(proof.all fun e => e.2.length = 64 && env.vm.sigOk e.1 (env.hdrHash hdr) e.2) then .ok false
-      else if ss.st.stakes.totalVotes ss.st.epoch > U128_MAX
-              ∨ (proof.map fun e => ss.st.stakes.votes ss.st.epoch e.1).sum > U128_MAX
-           then .crash "state.rs: vote sum overflow"
+      else if ss.st.stakes.totalVotes ss.st.epoch ≥ U128_MAX then .ok false
            else .ok (decide ((proof.map fun e => ss.st.stakes.votes ss.st.epoch e.1).sum * 3
                               > ss.st.stakes.totalVotes ss.st.epoch * 2)) := by
+  rw [confirm_eq_sat env ss hdr proof hh]
+  split
+  · rfl
+  · by_cases ht : ss.st.stakes.totalVotes ss.st.epoch ≥ U128_MAX
+    · have : satU128 (ss.st.stakes.totalVotes ss.st.epoch) = U128_MAX := by unfold satU128; omega
+      rw [if_pos this, if_pos ht]
+    · have : ¬ satU128 (ss.st.stakes.totalVotes ss.st.epoch) = U128_MAX := by unfold satU128; omega
+      rw [if_neg this, if_neg ht]
+      congr 1
+      apply decide_eq_decide.mpr
+      rw [ConfirmL.satSum_votes proof (fun e => ss.st.stakes.votes ss.st.epoch e.1)]
+      exact ConfirmL.capped_decision _ _ (by omega)
+
+/-- a crash of `confirm` can only be the crash of the header computation -/
+theorem confirm_crash_iff (env : Env) (ss : Sealed) (proof : List (Bytes × Bytes)) (site : String) :
+    confirm env ss proof = .crash site ↔ headerOf env ss = .crash site := by
   unfold confirm
-  rw [hh]
-  rfl
+  cases hh : headerOf env ss with
+  | ok hdr =>
+    simp only [Outcome.bind]
+    constructor
+    · intro h
+      split at h
+      · cases h
+      · split at h <;> cases h
+    · intro h; cases h
+  | reject e => simp [Outcome.bind]
+  | crash s => simp [Outcome.bind]
 
 end Mel
